@@ -1,2 +1,262 @@
+"""Run one Kani unit.
+
+A Kani unit = a harness crate committed under /verif/kani/<crate> (Cargo.toml, src/lib.rs with shim
+types + #[kani::proof] harnesses) + a list of extractions from /repo written into the build copy of the
+crate as src/gen/<name>.rs (include!d by lib.rs) and/or real files #[path]-included from /repo.
+
+One obligation per harness.  Harness metadata (tier, bounded?, bound, timeout) lives in unit.json.
+"""
+import concurrent.futures as cf
+import hashlib
+import json
+import os
+import re
+import shutil
+import signal
+import subprocess
+import time
+
+import rsx
+
+ROOT = os.path.dirname(os.path.dirname(os.path.abspath(__file__)))
+KANI_FLAGS = ["-Z", "function-contracts", "-Z", "stubbing"]
+
+
+def _env():
+    e = dict(os.environ)
+    e["CARGO_NET_OFFLINE"] = "true"
+    e.pop("RUSTFLAGS", None)
+    return e
+
+
+def _run(cmd, cwd, timeout, mem_gb=None, log=None):
+    """run with wall timeout (+ optional address-space cap); kill the whole process group on timeout."""
+    pre = ""
+    if mem_gb:
+        pre = "ulimit -v %d; " % (int(mem_gb) * 1024 * 1024)
+    t0 = time.time()
+    p = subprocess.Popen(["bash", "-c", pre + "exec " + " ".join("'%s'" % c.replace("'", "'\\''") for c in cmd)],
+                         cwd=cwd, env=_env(), stdout=subprocess.PIPE, stderr=subprocess.STDOUT, text=True,
+                         start_new_session=True)
+    try:
+        out, _ = p.communicate(timeout=timeout)
+        status = "done"
+    except subprocess.TimeoutExpired:
+        try:
+            os.killpg(p.pid, signal.SIGKILL)
+        except ProcessLookupError:
+            pass
+        out, _ = p.communicate()
+        status = "timeout"
+    if log:
+        open(log, "w").write(out)
+    return status, p.returncode, out, time.time() - t0
+
+
+def prepare(u, repo):
+    """copy the harness crate into build/, write the extracted text, return (dir, functions, rewrites)."""
+    name = u["name"]
+    src = os.path.join(ROOT, "kani", u.get("crate", name))
+    dst = os.path.join(ROOT, "build", "kani", name)
+    os.makedirs(dst, exist_ok=True)
+    # refresh sources but keep target/
+    for entry in os.listdir(src):
+        s, d = os.path.join(src, entry), os.path.join(dst, entry)
+        if os.path.isdir(s):
+            if os.path.exists(d):
+                shutil.rmtree(d)
+            shutil.copytree(s, d)
+        else:
+            shutil.copyfile(s, d)
+    gen = os.path.join(dst, "src", "gen")
+    os.makedirs(gen, exist_ok=True)
+    fns = []
+    rewrites = {}
+    for ex in u.get("extracts", []):
+        parts = []
+        for addr in ex["addresses"]:
+            e = rsx.extract(repo, addr, ex.get("rules", []))
+            text = e.text
+            for a, b in ex.get("subst", []):
+                pat = re.compile(r"(?<![A-Za-z0-9_])" + re.escape(a) + r"(?![A-Za-z0-9_])")
+                text, n = pat.subn(b, text)
+                rsx._count(e.rewrites, "R7.subst[%s=>%s]" % (a, b), n)
+            if ex.get("wrap"):
+                text = ex["wrap"] + "\n{\n" + text + "\n}\n"
+                rsx._count(e.rewrites, "R7.region_wrapped_as_fn")
+            parts.append(text)
+            fns.append({"unit": name, "address": addr, "file": e.path.replace(repo.rstrip("/") + "/", ""), "line": e.line,
+                        "sha256_of_extracted_text": e.sha256, "contracted": True, "rewrites": e.rewrites})
+            for k, v in e.rewrites.items():
+                rewrites[k] = rewrites.get(k, 0) + v
+        open(os.path.join(gen, ex["out"]), "w").write("\n".join(parts) + "\n")
+    for pi in u.get("path_includes", []):
+        p = os.path.join(repo, pi)
+        if not os.path.exists(p):
+            raise rsx.ExtractError("anchor lost: file %s missing" % p)
+        raw = open(p, "rb").read()
+        fns.append({"unit": name, "address": pi + " (whole file, #[path]-included, no rewrite)", "file": pi, "line": 1,
+                    "sha256_of_extracted_text": hashlib.sha256(raw).hexdigest(), "contracted": True, "rewrites": {}})
+    lock = os.path.join(repo, "Cargo.lock")
+    if os.path.exists(lock) and u.get("use_repo_lock", True):
+        shutil.copyfile(lock, os.path.join(dst, "Cargo.lock"))
+    return dst, fns, rewrites
+
+
+_RES_RE = re.compile(r"VERIFICATION:- (SUCCESSFUL|FAILED)")
+
+
+def parse_kani(out):
+    """-> dict(status, failed_checks, covers)"""
+    m = _RES_RE.findall(out)
+    res = {"verdict": m[-1] if m else None, "failed_checks": [], "covers": {}, "unwinding_failed": False}
+    # failed checks summary
+    for fm in re.finditer(r"Failed Checks: (.*?)\n\s*File: \"([^\"]*)\", line (\d+)", out):
+        res["failed_checks"].append({"check": fm.group(1).strip(), "file": fm.group(2), "line": int(fm.group(3))})
+    if "unwinding assertion" in out and re.search(r"Failed Checks: unwinding assertion", out):
+        res["unwinding_failed"] = True
+    cm = re.search(r"\*\* (\d+) of (\d+) cover properties satisfied", out)
+    if cm:
+        res["covers"] = {"satisfied": int(cm.group(1)), "total": int(cm.group(2))}
+    tm = re.search(r"Verification Time: ([0-9.]+)s", out)
+    if tm:
+        res["verification_time_s"] = float(tm.group(1))
+    sm = re.search(r"Stub: (.*)", out)
+    return res
+
+
+def run_harness(dst, h, tier, extra_flags):
+    name = h["name"]
+    timeout = h.get("timeout_s", 600) * (3 if tier == "thorough" else 1)
+    mem = h.get("mem_gb", 12 if tier != "thorough" else 24)
+    cmd = ["cargo", "kani"] + KANI_FLAGS + extra_flags + ["--harness", name, "--exact"]
+    log = os.path.join(dst, "log_%s.txt" % name)
+    status, rc, out, wall = _run(cmd, dst, timeout, mem, log)
+    r = parse_kani(out)
+    r.update({"name": name, "wall_s": wall, "run_status": status, "rc": rc, "cmd": " ".join(cmd), "tail": out[-3000:]})
+    return r
+
+
+def playback(dst, h, extra_flags):
+    """ask Kani for concrete values of a failing harness"""
+    cmd = ["cargo", "kani"] + KANI_FLAGS + extra_flags + ["--harness", h["name"], "--exact", "-Z", "concrete-playback",
+                                                            "--concrete-playback=print"]
+    status, rc, out, wall = _run(cmd, dst, h.get("timeout_s", 600), 12)
+    m = re.search(r"Concrete playback unit test for `[^`]*`:\s*```\s*(.*?)```", out, re.S)
+    if not m:
+        return None
+    test = m.group(1)
+    vals = re.findall(r"//\s*(-?[0-9a-fx.e+]+(?:[iu](?:8|16|32|64|128|size))?|true|false|'.')\s*\n\s*vec!\[([0-9, ]*)\]", test)
+    return {"kind": "kani-concrete-playback", "unit_test": test.strip()[:6000],
+            "values_in_order_of_kani_any": [v[0] for v in vals]}
+
+
 def run_unit(u, repo, tier, seed, relock=False, prop=None):
-    raise SystemExit("kani driver not built yet")
+    t0 = time.time()
+    name = u["name"]
+    res = {"unit": name, "backend": "kani", "backend_label": "kani(cbmc)", "obligations": [], "undecided": [],
+           "assumptions": list(u.get("assumptions", [])), "functions_under_contract": [], "rewrites": {}, "canaries": {}}
+    try:
+        dst, fns, rewrites = prepare(u, repo)
+    except (rsx.ExtractError, OSError) as e:
+        res["undecided"].append("extraction failed: %s" % e)
+        res["wall_s"] = time.time() - t0
+        return res
+    res["functions_under_contract"] = fns
+    res["rewrites"] = rewrites
+    extra = u.get("kani_flags", [])
+    # which harnesses: those for this property, for this tier (thorough includes quick)
+    hs = [h for h in u["harnesses"] if (prop is None or prop in h.get("properties", list(u["properties"].keys())))
+          and (tier == "thorough" or h.get("tier", "quick") == "quick")]
+    # seeded sample of the expensive ones in the quick tier
+    samp = [h for h in u["harnesses"] if h.get("tier") == "sample" and (prop is None or prop in h.get("properties", list(u["properties"].keys())))]
+    if tier != "thorough" and samp:
+        k = u.get("quick_sample", 1)
+        import random
+        rnd = random.Random(seed)
+        hs += rnd.sample(samp, min(k, len(samp)))
+    elif tier == "thorough":
+        hs += [h for h in samp if h not in hs]
+    res["checker_cmd"] = "cd %s && CARGO_NET_OFFLINE=true cargo kani %s --harness <each of %d harnesses> --exact" % (
+        dst, " ".join(KANI_FLAGS + extra), len(hs))
+    if not hs:
+        res["wall_s"] = time.time() - t0
+        return res
+    # compile once (codegen only) so that the parallel runs do not race on the build
+    status, rc, out, wall = _run(["cargo", "kani"] + KANI_FLAGS + extra + ["--only-codegen"], dst, 1800, None,
+                                 os.path.join(dst, "log_codegen.txt"))
+    if status != "done" or rc != 0:
+        errs = "\n".join(l for l in out.split("\n") if l.startswith("error"))[:1500]
+        res["undecided"].append("harness crate does not compile against the working tree (shim lacks an item the extracted "
+                                "text uses, or unsupported construct): %s" % (errs or out[-800:]))
+        res["wall_s"] = time.time() - t0
+        return res
+    par = u.get("parallel", 6)
+    with cf.ThreadPoolExecutor(max_workers=par) as ex:
+        results = list(ex.map(lambda h: run_harness(dst, h, tier, extra), hs))
+    lock_path = os.path.join(u["dir"], "obligations.lock")
+    lock = [l.strip() for l in open(lock_path)] if os.path.exists(lock_path) else []
+    lock = [l for l in lock if l and not l.startswith("#")]
+    cov_ok = 0
+    cov_bad = []
+    for h, r in zip(hs, results):
+        o = {"id": h["name"], "contract": h.get("contract", ""), "time_s": r.get("verification_time_s", r["wall_s"]),
+             "bounded": bool(h.get("bounded")), "bound": h.get("bound", ""),
+             "source": {"harness": "kani/%s/src/lib.rs :: %s" % (u.get("crate", name), h["name"])}}
+        if r["run_status"] == "timeout":
+            o["status"] = "undecided"
+            o["detail"] = "wall-clock cap hit (%.0fs)" % r["wall_s"]
+        elif r["verdict"] == "SUCCESSFUL":
+            o["status"] = "discharged"
+            # reachability: every kani::cover! must be SATISFIED
+            cv = r.get("covers") or {}
+            if cv and cv.get("satisfied") != cv.get("total"):
+                o["status"] = "undecided"
+                o["detail"] = "VACUOUS: only %s of %s cover properties satisfied" % (cv.get("satisfied"), cv.get("total"))
+                cov_bad.append(h["name"])
+            elif cv:
+                cov_ok += cv["total"]
+            if h.get("require_cover", True) and not cv:
+                o["status"] = "undecided"
+                o["detail"] = "VACUOUS?: harness reported no cover property"
+        elif r["verdict"] == "FAILED":
+            only_unwind = r["failed_checks"] and all("unwinding assertion" in c["check"] for c in r["failed_checks"])
+            if only_unwind:
+                o["status"] = "undecided"
+                o["detail"] = "unwinding assertion failed: the bound in the harness is too small for the current code"
+            elif h["name"] in lock or relock:
+                o["status"] = "failed"
+                o["detail"] = "Kani: VERIFICATION FAILED\n" + "\n".join(
+                    "  failed check: %s (%s:%s)" % (c["check"], c["file"], c["line"]) for c in r["failed_checks"][:10])
+                w = playback(dst, h, extra)
+                if w:
+                    w["note"] = "values of kani::any() in call order; the harness is kani/%s/src/lib.rs::%s over text extracted from /repo" % (
+                        u.get("crate", name), h["name"])
+                    o["witness"] = w
+            else:
+                o["status"] = "undecided"
+                o["detail"] = "failing harness not in obligations.lock"
+        else:
+            o["status"] = "undecided"
+            o["detail"] = "no verdict (rc=%s): %s" % (r["rc"], r["tail"][-600:])
+        o["kani"] = {k: r.get(k) for k in ("wall_s", "verification_time_s", "covers", "run_status")}
+        res["obligations"].append(o)
+    if relock:
+        bad = [o["id"] for o in res["obligations"] if o["status"] != "discharged"]
+        if bad:
+            res["undecided"].append("relock refused: %s" % bad)
+        else:
+            names = sorted(set(lock) | set(o["id"] for o in res["obligations"]))
+            open(lock_path, "w").write("# harnesses green on the pinned tree (written by ./check --relock)\n" + "".join(n + "\n" for n in names))
+    res["canaries"] = {"cover_properties_satisfied": cov_ok, "harnesses_with_unsatisfied_cover": cov_bad}
+    # assumption scan of the harness crate
+    lib = open(os.path.join(dst, "src", "lib.rs")).read()
+    for m in re.finditer(r"#\[kani::stub\(([^)]*)\)\]", lib):
+        res["assumptions"].append("kani::stub: " + re.sub(r"\s+", " ", m.group(1)))
+    n_assume = len(re.findall(r"kani::assume\(", lib))
+    if n_assume:
+        res["assumptions"].append("%d kani::assume(..) harness preconditions in kani/%s/src/lib.rs (input domains, stated per harness)" % (
+            n_assume, u.get("crate", name)))
+    res["assumptions"] = sorted(set(res["assumptions"]))
+    res["wall_s"] = time.time() - t0
+    return res
